@@ -23,7 +23,7 @@ var evalCodeText = map[int]string{
 	14: "event mode, same program as the model's: the events emitted (OP_EXEC payloads, LOOP position/node/stack snapshot) differ from those of the proven evaluation loop on that program",
 	15: "the implementation's optimised tree differs from the model's AND Eval returns something else than the model-optimised tree means",
 	17: "the implementation's optimised tree differs from the model's and Eval returns ANOTHER VALUE than the model-optimised tree (whose value is the source's, by C02's theorem)",
-	16: "the implementation's optimised tree differs from the model's AND TryEval returns something else than the model-optimised tree means",
+	16: "the implementation's optimised tree differs from the model's and TryEval gives ANOTHER ANSWER (value or DNE) than the model-optimised tree means",
 	10: "event-mode layout: the structural compiler the C12 theorem is about differs from the transliterated event pass",
 	50: "outside the property's domain (non-boolean operand of and/or): not compared",
 }
